@@ -34,7 +34,8 @@
 (* to decide are the cases and are published.                               *)
 EXTENDS Integers, Sequences, FiniteSets, TLC, Json
 
-CONSTANTS Pairs, FamC, FamS, FamD, FamO,   \* operand kinds, families of method subsets per class
+CONSTANTS Pairs,      \* operand kinds
+          Profile,    \* which families of method subsets the classes range over (see Fam below)
           Dump
 
 Kinds == {"C", "S", "D", "O"}
@@ -164,7 +165,22 @@ NextMethod == IF Undecided(ref.log) # {} THEN ref.log[Min(Undecided(ref.log))].m
               ELSE ""
 IsCase == NextMethod = ""
 
-Fam(k) == CASE k = "C" -> FamC [] k = "S" -> FamS [] k = "D" -> FamD [] k = "O" -> FamO
+(* families of method subsets *)
+All64 == SUBSET Ops
+Tiny == {{}, Ops}
+Five == {{}, {"lt"}, {"eq"}, {"lt", "eq"}, {"le", "ne"}, Ops}
+Small == {{}, {"lt"}, {"eq"}, {"lt", "eq"}, {"le", "ne"}, {"gt", "eq", "ne"}, Ops}
+Medium == Small \cup {{"ne"}, {"ge", "eq"}, {"lt", "gt"}, {"eq", "ne"}, {"lt", "le", "gt", "ge"}, {"le", "eq"}}
+(* the class C ranges over all 64 subsets when only C (and, thorough, D / O) is involved; pairs     *)
+(* with the subclass S and, in the quick profile, with O use reduced families                        *)
+Fam(k) ==
+  LET inv == Involved(l, r) IN
+  CASE Profile = "quick" ->
+         (IF "S" \in inv THEN Five ELSE IF "O" \in inv THEN (IF k = "O" THEN Tiny ELSE Medium) ELSE All64)
+    [] Profile = "thorough" ->
+         (IF "S" \in inv THEN (IF k \in {"C", "S"} THEN Medium ELSE Tiny)
+          ELSE IF k = "C" THEN All64 ELSE IF k = "D" THEN Small ELSE Tiny)
+    [] Profile = "strict" -> {{"lt"}, {"lt", "eq"}}
 FamOf(k) == IF k \in Involved(l, r) THEN Fam(k) ELSE {{}}
 
 Init == /\ \E p \in Pairs : l = p[1] /\ r = p[2]
@@ -230,14 +246,8 @@ Publish == (Dump /\ IsCase) =>
                           tags |-> Tags]))
 
 ---------------------------------------------------------------------------
-(* families of method subsets *)
-All64 == SUBSET Ops
-Small == {{}, {"lt"}, {"eq"}, {"lt", "eq"}, {"le", "ne"}, {"gt", "eq", "ne"}, Ops}
-Medium == Small \cup {{"ne"}, {"ge", "eq"}, {"lt", "gt"}, {"eq", "ne"}, {"lt", "le", "gt", "ge"}, {"le", "eq"}}
-Tiny == {{}, Ops}
-Five == {{}, {"lt"}, {"eq"}, {"lt", "eq"}, {"le", "ne"}, Ops}
-PairsCq == {<<"C", "C">>, <<"C", "O">>, <<"O", "C">>}
-PairsSq == {<<"C", "S">>, <<"S", "C">>, <<"S", "S">>}
+PairsCC == {<<"C", "C">>}
+PairsQuick == {<<"C", "C">>, <<"C", "O">>, <<"O", "C">>, <<"C", "S">>, <<"S", "C">>, <<"S", "S">>}
 PairsC == {<<"C", "C">>, <<"C", "O">>, <<"O", "C">>, <<"C", "D">>, <<"D", "C">>}
-PairsS == {<<"C", "S">>, <<"S", "C">>, <<"S", "S">>, <<"S", "O">>, <<"O", "S">>, <<"S", "D">>, <<"D", "S">>}
+PairsThorough == PairsC \cup {<<"C", "S">>, <<"S", "C">>, <<"S", "S">>, <<"S", "O">>, <<"O", "S">>, <<"S", "D">>, <<"D", "S">>}
 =============================================================================
